@@ -240,6 +240,11 @@ func (s *bFiller) Fill(w io.Writer, stat decor.Statistics) error {
 			tip = s.tip.frames[s.tip.count%uint(len(s.tip.frames))]
 			s.tip.count++
 			fillCount += tip.width
+			if fillCount > width {
+				// tip is wider than the whole bar
+				fillCount -= tip.width
+				tip = component{}
+			}
 		}
 		switch refWidth := 0; {
 		case stat.Refill != 0:
